@@ -1,0 +1,45 @@
+//go:build verif
+// +build verif
+
+// Verification hook (add-only, compiled only with -tags verif): lets the C19 harness reset, damage and
+// read the groupIndex table with its own SQL, independently of the functions under test
+// (InsertGroup / DeleteGroup / SelectGroup / CountGroups / SelectValidGroups).
+package mysql
+
+import "com.tuntun.rangers/node/src/common"
+
+// VerifGroupIndexReset empties the groupIndex table.
+func VerifGroupIndexReset() error {
+	_, err := mysqlDBLog.Exec("DELETE FROM groupIndex")
+	return err
+}
+
+// VerifGroupIndexDeleteRow removes the row of one group id, whichever hex rendering it was stored with.
+func VerifGroupIndexDeleteRow(id []byte) error {
+	_, err := mysqlDBLog.Exec("DELETE FROM groupIndex WHERE hash = ? OR hash = ?", common.ToHex(id), common.Bytes2Hex(id))
+	return err
+}
+
+// VerifGroupIndexRow is one row of the table as stored.
+type VerifGroupIndexRow struct {
+	Hash        string
+	GroupHeight uint64
+}
+
+// VerifGroupIndexRows returns every row of the table, ordered by groupheight, then hash.
+func VerifGroupIndexRows() ([]VerifGroupIndexRow, error) {
+	rows, err := mysqlDBLog.Query("SELECT hash, groupheight FROM groupIndex ORDER BY groupheight, hash")
+	if err != nil {
+		return nil, err
+	}
+	defer rows.Close()
+	var out []VerifGroupIndexRow
+	for rows.Next() {
+		var r VerifGroupIndexRow
+		if err := rows.Scan(&r.Hash, &r.GroupHeight); err != nil {
+			return nil, err
+		}
+		out = append(out, r)
+	}
+	return out, nil
+}
